@@ -102,6 +102,11 @@ def cases(draw):
 
 
 def check(case, ctx):
+    from yv import fuzzphase
+    if fuzzphase.note_stats(case, ctx):
+        return
+    if 'fuzz' in case:
+        case = {'model': fuzzphase.model_of(case), 'text': case['text'], 'src': 'fuzz'}
     spec = case['model']
     m = models.build(spec)
     load = m.load
@@ -166,4 +171,8 @@ def check(case, ctx):
 
 def phases(tier):
     n = 250 if tier != 'thorough' else 4000
-    return [HypPhase('models_x_tagged_documents', cases(), n)]
+    ph = [HypPhase('models_x_tagged_documents', cases(), n)]
+    if tier == 'thorough':
+        from yv import fuzzphase
+        ph.append(fuzzphase.fuzz_phase('C04', 200000))
+    return ph
